@@ -419,7 +419,7 @@ pub fn level_into(which: Which, rep: &mut Report) {
     let ex_ops = if which == Which::C13 { budget(tier, 6_000, 10_000) } else { budget(tier, 6_000, 60_000) };
     exchange(rep, which, ex_ops);
     if tier == Tier::Thorough && which == Which::C03 && std::env::var("PLV_NO_MIRI").is_err() {
-        crate::miri::sweep(rep, "level", seed, 4, budget(tier, 0, 96), "0.05");
+        crate::miri::sweep(rep, "level", seed, 4, budget(tier, 0, 160), "0.05");
     }
     rep.rule = format!(
         "E1: seeded random programs (2-4 threads x 1-4 add / match / cancel / quantity-amend / read operations on a level pre-loaded with 1-4 orders, ids drawn from a tiny pool) executed by real threads under the baton scheduler: one shared-memory operation per step, strategies rw / PCT(d=1..3) / complete one-preemption delay sweep; {}; E2: the same programs free-running with delay injection. non-trivial = execution in which two threads touched the same order id with at least one mutator in overlapping calls; distinct = distinct (program, schedule) pairs (hash of the (thread, operation, call site) sequence)",
@@ -1013,7 +1013,7 @@ pub fn run_c08(tier: Tier, seed: u64) -> i32 {
     bounded_queue_sweep(&mut rep, tier.pick(3, 5), tier.pick(20_000, 400_000));
     run_queue_e2(&mut rep, ncpu().min(16), budget(tier, 40_000, 1_000_000));
     if tier == Tier::Thorough && std::env::var("PLV_NO_MIRI").is_err() {
-        crate::miri::sweep(&mut rep, "queue", seed ^ 0x808, 4, budget(tier, 0, 96), "0.05");
+        crate::miri::sweep(&mut rep, "queue", seed ^ 0x808, 4, budget(tier, 0, 160), "0.05");
     }
     if tier == Tier::Thorough && std::env::var("PLV_NO_TSAN").is_err() {
         crate::tsan::run(&mut rep);
